@@ -38,13 +38,20 @@ BaseClass == IF Base[C] = "ASTNode" THEN C ELSE Base[C]
 ClassVariants == {<<C>>, <<BaseClass>>, <<"*">>, <<OtherClass>>, <<OtherClass, C>>, <<OtherClass, BaseClass>>,
                   <<BaseClass, OtherClass>>}
 
+(* every blank doubled: a regex that differs from the exact one only in the length of its runs of blanks
+   (the same sequence when s has no blank) *)
+RECURSIVE Stretch(_)
+Stretch(s) == IF s = <<>> THEN <<>>
+              ELSE (IF Head(s) = " " THEN <<" ", " ">> ELSE <<Head(s)>>) \o Stretch(Tail(s))
+
 (* specs tried for the field f of the root, whose value is v *)
 SpecVariants(f, v) ==
     {AnyV, [t |-> "none"], [t |-> "empty"], ExactSpec(v, 1)}
     \cup (IF v.k = "atom" /\ v.pool \in SimplePools /\ AtomType(v) # "none" /\ Len(AtomStr(v)) > 0
           THEN LET s == AtomStr(v) IN
                {Re(s, FALSE), Re(SubSeq(s, 1, 1), FALSE), Re(SubSeq(s, 1, 1), TRUE), Re(SubSeq(s, Len(s), Len(s)), FALSE),
-                Re(<<".">>, FALSE), Re(s \o <<".">>, FALSE), Re(<<"q">>, FALSE)}
+                Re(<<".">>, FALSE), Re(s \o <<".">>, FALSE), Re(<<"q">>, FALSE),
+                Re(Stretch(s), TRUE), Re(Stretch(s), FALSE)}
           ELSE {})
     \cup (IF v.k = "node" THEN {Tree(<<"*">>, <<>>), Tree(<<OtherClass>>, <<>>), ExactSpec(v, 0), Re(<<".">>, FALSE)} ELSE {})
     \cup (IF v.k = "tuple" THEN
